@@ -365,3 +365,36 @@ def add_level_controls(rng, scn, n, hysteresis_p=0.6):
                                     'then': [{'link': l['id'], 'attr': 'status', 'value': 'CLOSED'}], 'priority': 3})
             made += 1
     return made
+
+
+def add_leaks(rng, scn, n, tanks=True, p_removed=0.1):
+    """leaks on junctions (and tanks) with windows on/off the hydraulic grid"""
+    cands = [nd for nd in scn['nodes'] if nd['type'] == 'J' or (tanks and nd['type'] == 'T')]
+    used = set(l['node'] for l in scn['leaks'])
+    made = 0
+    for _ in range(n):
+        free = [nd for nd in cands if nd['id'] not in used]
+        if not free:
+            break
+        nd = rng.pick(free)
+        used.add(nd['id'])
+        start = time_instant(rng, scn)
+        kind = rng.wpick([('window', 6), ('open_end', 2), ('end_before_start', 1), ('no_start', 1), ('from_zero', 2)])
+        if kind == 'window':
+            end = min(scn['options']['duration'] * 2, start + rng.pick([1, scn['options']['hyd_step'], 2 * scn['options']['hyd_step'] + 7, 5000, 123]))
+        elif kind == 'open_end':
+            end = None
+        elif kind == 'end_before_start':
+            end = start          # empty window: never active
+        elif kind == 'no_start':
+            end = start
+            start = None
+        else:
+            start = 0
+            end = time_instant(rng, scn)
+            if end == 0:
+                end = None
+        scn['leaks'].append({'node': nd['id'], 'area': rng.logu(1e-6, 5e-3, 4), 'cd': rng.pick([0.75, 0.6, 1.0, 0.3]),
+                             'start': start, 'end': end, 'removed': rng.chance(p_removed)})
+        made += 1
+    return made
